@@ -51,6 +51,8 @@ func paramValue(s string) string {
 		return "u v"
 	case "s":
 		return "s"
+	case "mb":
+		return "n\u00e9" // two characters, three bytes
 	}
 	return ""
 }
@@ -59,7 +61,7 @@ func paramName(v string, set bool) string {
 	if !set {
 		return "unset"
 	}
-	for _, n := range []string{"x", "xy", "yz", "w", "uv", "s"} {
+	for _, n := range []string{"x", "xy", "yz", "w", "uv", "s", "mb"} {
 		if paramValue(n) == v {
 			return n
 		}
@@ -120,6 +122,8 @@ func runParam(c paramCase) (o paramObs) {
 			}
 		case "side":
 			w = ast.Word{&ast.ParamExp{Braces: true, Name: &ast.Lit{Value: "y"}, Op: ":=", Word: ast.Word{&ast.Lit{Value: "s"}}}}
+		case "at":
+			w = ast.Word{&ast.Quote{Tok: `"`, Value: ast.Word{&ast.ParamExp{Name: &ast.Lit{Value: "@"}}}}}
 		case "pat":
 			w = ast.Word{&ast.Lit{Value: "?"}}
 		}
